@@ -248,6 +248,9 @@ func (ctx Ctx) addSourceFile(node ast.Node, comment *string) {
 }
 
 func (ctx Ctx) typeDecl(doc *ast.CommentGroup, spec *ast.TypeSpec) coq.Decl {
+	if spec.Name.Name == "_" {
+		ctx.unsupported(spec, "declaration of the blank identifier")
+	}
 	if spec.TypeParams != nil {
 		ctx.futureWork(spec, "generic named type (e.g. no generic structs)")
 	}
@@ -2055,6 +2058,11 @@ func (ctx Ctx) funcDecl(d *ast.FuncDecl) coq.FuncDecl {
 		ident, ok := rcvrTy.(*ast.Ident)
 		if !ok {
 			ctx.unsupported(rcvr, "unexpected function receiver type: %s", ctx.printGo(rcvrTy))
+		}
+		if d.Name.Name == "_" {
+			// like functions named _: any number may be declared and each
+			// would become a definition of the same name
+			ctx.unsupported(d, "method named _")
 		}
 		rcvrName := ident.Name
 		if named, ok := types.Unalias(ctx.typeOf(rcvrTy)).(*types.Named); ok {
